@@ -38,9 +38,9 @@ def sec5():
             o.append("*Defects found by this check and repaired in /repo:*\n"+"\n".join("- `"+re.sub(r'^fixed: property=\S+ (\S+) ',r'\1` ',l) for l in fx)+"\n")
         if kn:
             o.append("*Known findings (reported as KNOWN-FINDING, exit 0):*\n"+"\n".join("- "+re.search(r'what="(.*)"$',l).group(1)+" — signature `"+re.search(r'signature="([^"]*)"',l).group(1)+"`" for l in kn)+"\n")
-        ms=sorted(k for k in mres if k.startswith(pid+'/'))
+        ms=sorted(k for k in mres if k.startswith(pid+'/') or k.startswith(pid+'b/'))
         if ms:
-            o.append("*Seeded changes:* "+"; ".join(f"{k.split('/')[1]}: "+("caught by "+mres[k]['by'] if mres[k]['caught'] else ("not applicable - "+mres[k]['why'] if mres[k]['caught'] is None else "NOT caught - "+mres[k]['why'])) for k in ms)+".\n")
+            o.append("*Seeded changes:* "+"; ".join(f"{k.split('/',1)[0][3:]+k.split('/')[1]}: "+("caught by "+mres[k]['by'] if mres[k]['caught'] else ("not applicable - "+mres[k]['why'] if mres[k]['caught'] is None else "NOT caught - "+mres[k]['why'])) for k in ms)+".\n")
     return "\n".join(o)
 def mutant_table():
     o=["| change | kept under | result |","|---|---|---|"]
